@@ -166,7 +166,14 @@ class SuccessionDiagram:
         self.petri_net = state["petri_net"]
         self.nfvs = state["nfvs"]
         self.dag = state["dag"]
-        self.node_indices = state["node_indices"]
+        # The keys of `node_indices` depend on the variable indices of `self.network`.
+        # The network restored from its `.aeon` text orders variables by name, which need
+        # not be the order of the network the diagram was created with, so the persisted
+        # keys cannot be trusted: the index is rebuilt for the restored network.
+        self.node_indices = {
+            space_unique_key(self.node_data(node_id)["space"], self.network): node_id
+            for node_id in state["node_indices"].values()
+        }
         self.config = state["config"]
 
     def __len__(self) -> int:
